@@ -449,7 +449,7 @@ func c08FreshMap(m ssa.Value) bool {
 
 func c08R1(c *Ctx, r *c08Roles) {
 	const R1 = "C08.R1.index-projection"
-	c.Expect(R1, 9)
+	c.Expect(R1, 11)
 	refName, okRef := c08RefNameConst(c.P)
 	if !okRef {
 		c.LostAnchor(R1, "ocispec.AnnotationRefName")
@@ -817,6 +817,17 @@ func c08R1(c *Ctx, r *c08Roles) {
 		}
 		c.Check(R1, sn+"|every-untagged-entry-emitted", S.Pos(), p2 != nil, ifelse(p2 != nil, "a second pass appends every ref == digest entry unless its digest is in the de-duplication set",
 			"no pass appends every ref == digest entry (other than de-duplicated ones): a manifest that is only known by digest disappears from index.json and is not resolvable/indexed after reopen"))
+		for i, pp := range []*c08Pass{p1, p2} {
+			if pp == nil {
+				continue
+			}
+			bad, at := c09IterEarlyExit(pp.it)
+			if !bad {
+				at = S.Pos()
+			}
+			c.Check(R1, sn+fmt.Sprintf("|pass%d-runs-to-the-end", i+1), at, !bad, ifelse(!bad, "the pass over the resolver map is left only when the map is exhausted (or with an error)",
+				"the pass over the resolver map can be left early while the projection is still written: the entries not visited are missing from index.json"))
+		}
 		if p2 != nil {
 			c.Check(R1, sn+"|untagged-entry-stripped", S.Pos(), okStrip, ifelse(okStrip, "digest-only entries are emitted through the helper that removes the ref-name annotation",
 				"a digest-only entry is written with whatever "+refName+" annotation its descriptor carries: reopening the layout would create a tag that the live store does not have"))
@@ -911,7 +922,7 @@ func c08R1(c *Ctx, r *c08Roles) {
 
 func c08R3(c *Ctx, r *c08Roles) {
 	const R3 = "C08.R3.load-protocol"
-	c.Expect(R3, 10)
+	c.Expect(R3, 11)
 	refName, _ := c08RefNameConst(c.P)
 	isTag := func(n string) bool { return n == "(~/content.Tagger).Tag" || n == c08nResTag }
 	// loadIndex role: a range over ocispec.Index.Manifests below which (directly or in a helper) every entry is tagged
@@ -1144,6 +1155,12 @@ func c08R3(c *Ctx, r *c08Roles) {
 		}
 		checkErr(L, 2)
 		c.Check(R3, ln+"|load-errors-returned", lpos, okErr, ifelse(okErr, "errors of the three load steps are returned", "a load error is dropped: "+detail))
+		badEnd, atEnd := c09IterEarlyExit(it)
+		if !badEnd {
+			atEnd = lpos
+		}
+		c.Check(R3, ln+"|every-entry-visited", atEnd, !badEnd, ifelse(!badEnd, "the loop over index.Manifests is left without an error only when every entry was visited",
+			"the loop over index.Manifests can be left early while the load reports success: the entries after that point are neither tagged nor indexed, the reopened store lacks them"))
 	}
 	loadersContain := func(g *ssa.Function) bool {
 		for _, L := range loaderFns {
@@ -1176,6 +1193,88 @@ func c08R3(c *Ctx, r *c08Roles) {
 		})
 		c.Check(R3, FnName(f)+"|loads-index", f.Pos(), loads, ifelse(loads, "the constructor loads index.json through the common loader", "the constructor does not load index.json through the common loader"))
 		c.Check(R3, FnName(f)+"|validates-layout-version", f.Pos(), validates, ifelse(validates, "oci-layout's imageLayoutVersion is compared with ocispec.ImageLayoutVersion", "the constructor does not validate oci-layout's version"))
+		// a store is handed out only when both steps succeeded (a load cut short by an error or a cancelled
+		// context must not yield a half-loaded store)
+		isValidator := func(g *ssa.Function) bool {
+			if g == nil || !inModule(g) {
+				return false
+			}
+			for _, s := range StringConstsComparedWith(g, func(v ssa.Value) bool { return isFieldLoad(v, "Version") }) {
+				if s == want {
+					return true
+				}
+			}
+			return false
+		}
+		direct := func(pred func(*ssa.Function) bool) []ssa.Instruction {
+			var out []ssa.Instruction
+			for _, call := range Calls(f, func(string) bool { return true }) {
+				g := StaticCallee(call)
+				if _, isCall := call.(*ssa.Call); !isCall || g == nil || !inModule(g) {
+					continue
+				}
+				if pred(g) || reachesCall(g, 2, func(_ string, cc ssa.CallInstruction) bool { return pred(StaticCallee(cc)) }) {
+					out = append(out, call.(ssa.Instruction))
+				}
+			}
+			return out
+		}
+		for _, step := range []struct {
+			what  string
+			calls []ssa.Instruction
+		}{{"index-loaded", direct(loadersContain)}, {"layout-validated", direct(isValidator)}} {
+			if len(step.calls) == 0 {
+				continue // the step is inlined into the constructor: its own rules judge it
+			}
+			ct := newCut()
+			c09SuccessCut(f, step.calls, ct)
+			okS, at := c09SuccessImplies(f, ct)
+			c.Check(R3, FnName(f)+"|success-implies-"+step.what, at, okS, ifelse(okS, "every return of the constructor that may report success lies behind the success of this step",
+				"the constructor can hand out a store although this step failed or did not run (error dropped, early success): the store is half-loaded — tags / predecessors of the layout on disk are missing"))
+		}
+	}
+	// sibling agreement writer / validator of oci-layout: the document created for a new layout carries the very
+	// version the openers insist on (otherwise a layout this library created cannot be reopened)
+	if okVer {
+		want := constant.StringVal(ver.Val())
+		for _, f := range c09FuncsOfPkg(c.P, c08Pkg) {
+			for _, mc := range CallsTo(f, "encoding/json.Marshal") {
+				mi, ok := mc.Common().Args[0].(*ssa.MakeInterface)
+				if !ok {
+					continue
+				}
+				t := mi.X.Type()
+				if pt, isPtr := t.Underlying().(*types.Pointer); isPtr {
+					t = pt.Elem()
+				}
+				if short(t.String()) != "ocispec.ImageLayout" {
+					continue
+				}
+				st, _ := t.Underlying().(*types.Struct)
+				vi := -1
+				for i := 0; st != nil && i < st.NumFields(); i++ {
+					if st.Field(i).Name() == "Version" {
+						vi = i
+					}
+				}
+				got, known := "", false
+				if vi >= 0 {
+					base := ssa.Value(mi.X)
+					if ld, isLd := base.(*ssa.UnOp); isLd && ld.Op == token.MUL {
+						base = ld.X
+					}
+					if fv := c09FieldValue(base, vi); fv != nil {
+						got, known = constString(fv)
+					}
+				}
+				if !known {
+					c.Undecided(R3, "oci-layout|written-version-is-the-validated-version", mc.Pos(), "the Version of the ImageLayout document that is marshalled is not a constant the rule can read")
+					continue
+				}
+				c.Check(R3, "oci-layout|written-version-is-the-validated-version", mc.Pos(), got == want, ifelse(got == want, "the oci-layout document created for a new layout carries ocispec.ImageLayoutVersion, the version the openers require",
+					"the oci-layout document created for a new layout carries version \""+got+"\" while the openers require \""+want+"\": a layout created by this library cannot be opened again"))
+			}
+		}
 	}
 	// sibling agreement: the read-write and the read-only opener accept the same documents — once index.json /
 	// oci-layout decoded, a document is rejected only by the shared load protocol (the common loader, the version
@@ -1538,9 +1637,139 @@ func c08R5(c *Ctx) {
 	if n == 0 {
 		c.LostAnchor(R5, "production of fs.ErrNotExist in ~/internal/fs/tarfs")
 	}
+	// index building: the loop that reads the headers (tar.Reader.Next) and fills the entries index
+	//  - ends with success only at the end of the archive (io.EOF of Next),
+	//  - records every header it read before it moves on,
+	// and the constructor hands out a TarFS only when the index was built.
+	const nNext = "(*archive/tar.Reader).Next"
+	var indexers []*ssa.Function
+	for _, f := range c09FuncsOfPkg(c.P, "internal/fs/tarfs") {
+		if c09IsYieldBody(f) {
+			continue
+		}
+		var fills []ssa.Instruction
+		AllInstrs(f, func(in ssa.Instruction) {
+			if mu, ok := in.(*ssa.MapUpdate); ok && isIndex(mu.Map) {
+				fills = append(fills, in)
+			}
+		})
+		if len(fills) == 0 {
+			continue
+		}
+		for _, l := range Loops(f) {
+			var next ssa.CallInstruction
+			for _, nc := range CallsTo(f, nNext) {
+				if c09InLoopRegion(l, nc.(ssa.Instruction)) {
+					next = nc
+				}
+			}
+			inLoop := false
+			for _, fi := range fills {
+				inLoop = inLoop || c09InLoopRegion(l, fi)
+			}
+			if next == nil || !inLoop {
+				continue
+			}
+			indexers = append(indexers, f)
+			e := ErrOf(next)
+			if e == nil {
+				c.Violation(R5, FnName(f)+"|index-ends-only-at-end-of-archive", next.Pos(), "the error of tar.Reader.Next is dropped in the indexing loop")
+				continue
+			}
+			errs := Aliases(e)
+			nilE, _, _ := NilTests(f, errs)
+			// edges on which the error is known to be io.EOF
+			var eof []Edge
+			isEOF := func(v ssa.Value) bool {
+				ld, ok := v.(*ssa.UnOp)
+				if !ok || ld.Op != token.MUL {
+					return false
+				}
+				g, ok := ld.X.(*ssa.Global)
+				return ok && g.Pkg != nil && g.Pkg.Pkg.Path() == "io" && g.Name() == "EOF"
+			}
+			for _, i := range Ifs(f) {
+				cond, t, fe := ifEdges(i)
+				switch u := cond.(type) {
+				case *ssa.Call:
+					if CalleeName(u) == "errors.Is" && errs[u.Call.Args[0]] && isEOF(u.Call.Args[1]) {
+						eof = append(eof, t)
+					}
+				case *ssa.BinOp:
+					if (errs[u.X] && isEOF(u.Y)) || (errs[u.Y] && isEOF(u.X)) {
+						if u.Op == token.EQL {
+							eof = append(eof, t)
+						} else if u.Op == token.NEQ {
+							eof = append(eof, fe)
+						}
+					}
+				}
+			}
+			bad, at := c09LoopLeftOtherThan(f, l, newCut().Edges(eof...))
+			if len(eof) == 0 {
+				bad, at = true, next.Pos()
+			}
+			if !bad {
+				at = blockPos(l.Header)
+			}
+			c.Check(R5, FnName(f)+"|index-ends-only-at-end-of-archive", at, !bad, ifelse(!bad, "the indexing loop reports success only after tar.Reader.Next answered io.EOF",
+				"the indexing loop can stop with success before the end of the archive: the entries behind that point are missing from the index, the layout opened from the tar lacks blobs the directory has"))
+			okF := true
+			for _, ne := range nilE {
+				if l.Blocks[ne.From] && c08PathExists(ne.To, 0, l.Header.Instrs[0], false, newCut().Instr(fills...), nil) {
+					okF = false
+				}
+			}
+			c.Check(R5, FnName(f)+"|every-header-indexed", next.Pos(), okF && len(nilE) > 0, ifelse(okF && len(nilE) > 0, "every header read without error is recorded in the entries index before the next one is read",
+				"a header can be read and passed over without being recorded: that file of the archive does not exist for the store"))
+		}
+	}
+	for _, f := range c09FuncsOfPkg(c.P, "internal/fs/tarfs") {
+		if f.Object() == nil || !f.Object().Exported() || f.Signature.Recv() != nil || ErrResultIndex(f.Signature) < 0 {
+			continue
+		}
+		var calls []ssa.Instruction
+		for _, call := range Calls(f, func(string) bool { return true }) {
+			g := StaticCallee(call)
+			for _, ix := range indexers {
+				if g == ix {
+					calls = append(calls, call.(ssa.Instruction))
+				}
+			}
+		}
+		if len(calls) == 0 {
+			continue
+		}
+		ct := newCut()
+		c09SuccessCut(f, calls, ct)
+		okS, at := c09SuccessImplies(f, ct)
+		c.Check(R5, FnName(f)+"|success-implies-index-built", at, okS, ifelse(okS, "the constructor hands out a TarFS only when the entries index was built",
+			"the constructor can hand out a TarFS whose entries index was not (completely) built"))
+	}
 }
 
 var c08Mutants = []Mutant{
+	// coverage review: loops that must run to the end, constructors, tarfs index (all keep the repository's tests green)
+	{Name: "loader-stops-at-foreign-entry", File: "content/oci/readonlyoci.go",
+		Old: "\tfor _, desc := range index.Manifests {\n", New: "\tfor _, desc := range index.Manifests {\n\t\tif desc.MediaType == \"\" {\n\t\t\t// not an OCI descriptor: stop here\n\t\t\tbreak\n\t\t}\n",
+		Expect: "C08.R3.load-protocol|~/content/oci.loadIndex|every-entry-visited"},
+	{Name: "saveindex-pass2-stops-early", File: "content/oci/oci.go",
+		Old:    "\tfor ref, desc := range refMap {\n\t\tif ref == desc.Digest.String() && !tagged.Contains(desc.Digest) {",
+		New:    "\tfor ref, desc := range refMap {\n\t\tif ref == \"\" {\n\t\t\tbreak\n\t\t}\n\t\tif ref == desc.Digest.String() && !tagged.Contains(desc.Digest) {",
+		Expect: "C08.R1.index-projection|(*~/content/oci.Store).saveIndex|pass2-runs-to-the-end"},
+	{Name: "new-swallows-cancelled-load", File: "content/oci/oci.go",
+		Old:    "\tif err := store.loadIndexFile(ctx); err != nil {\n",
+		New:    "\tif err := store.loadIndexFile(ctx); err != nil && !errors.Is(err, context.Canceled) {\n",
+		Expect: "C08.R3.load-protocol|~/content/oci.NewWithContext|success-implies-index-loaded"},
+	{Name: "layout-created-with-spec-version", File: "content/oci/oci.go", // killed by the repository's tests as well (TestStore_Success pins the version)
+		Old: "\t\t\tVersion: ocispec.ImageLayoutVersion,\n", New: "\t\t\tVersion: specs.Version,\n",
+		Expect: "C08.R3.load-protocol|oci-layout|written-version-is-the-validated-version"},
+	{Name: "tar-index-accepts-truncated-archive", File: "internal/fs/tarfs/tarfs.go",
+		Old: "\t\t\tif errors.Is(err, io.EOF) {\n", New: "\t\t\tif errors.Is(err, io.EOF) || errors.Is(err, io.ErrUnexpectedEOF) {\n",
+		Expect: "C08.R5.tar-not-exist-only-when-absent|(*~/internal/fs/tarfs.TarFS).indexEntries|index-ends-only-at-end-of-archive"},
+	{Name: "tar-index-skips-global-headers", File: "internal/fs/tarfs/tarfs.go",
+		Old: "\t\tname := path.Clean(header.Name)\n", New: "\t\tif header.Typeflag == tar.TypeXGlobalHeader {\n\t\t\tcontinue\n\t\t}\n\t\tname := path.Clean(header.Name)\n",
+		Expect: "C08.R5.tar-not-exist-only-when-absent|(*~/internal/fs/tarfs.TarFS).indexEntries|every-header-indexed"},
 	// R3 sibling agreement, R5
 	{Name: "rw-open-rejects-empty-index", File: "content/oci/oci.go",
 		Old: "\ts.index = &index\n", New: "\tif len(index.Manifests) == 0 && index.MediaType == \"\" {\n\t\treturn errors.New(\"empty index\")\n\t}\n\ts.index = &index\n",
